@@ -4,7 +4,8 @@
    Exactness w.r.t. the rules (C14_full) is proved for every position satisfying the invariant (Proofs/PerftExact.v, from C01's
    exactness and C02's successor refinement); the extracted Spec.perft is applied to the engine's counts on every run (the tie). *)
 From Coq Require Import NArith ZArith List Permutation.
-From JV Require Import Model.Chess Model.Abs Model.SearchChess Spec.ChessSpec Proofs.MoveGenProofs Proofs.PerftProofs Proofs.LegalInv Proofs.LegalInvB Proofs.PerftExact Proofs.StartPos.
+From JV Require Import Model.Chess Model.Abs Model.SearchChess Spec.ChessSpec Proofs.MoveGenProofs Proofs.PerftProofs Proofs.LegalInv Proofs.LegalInvB Proofs.PerftExact Proofs.StartPos Model.Fen Model.Uci Proofs.UciLoopProofs.
+Import ListNotations.
 Local Open Scope N_scope.
 
 Theorem C14_any_schedule : forall k g t,
@@ -32,7 +33,26 @@ Theorem C14_any_schedule_is_exact : forall k g t, legal_inv g ->
   Permutation (leaves t) (map (sub_count (S k) g) (generate_moves g true)) -> Z.of_N (reduce t) = ChessSpec.perft (S (S k)) (abs g).
 Proof. intros k g t LI P. rewrite (perft_any_schedule k g t P). apply perft_exact. exact LI. Qed.
 
+From Coq Require Import String.
+(* at the console: the `perft N` command (N >= 1) of the main loop leaves the engine state alone and reports, for every position satisfying the
+   invariant, the rules' count; the per-move lines it prints for N >= 2 add up to that total *)
+Theorem C14_perft_command_reports_the_rules_count : forall extra u line input t r d,
+  legal_inv (u_game u) ->
+  Fen.trim line <> EmptyString -> lower_str (first_token (Fen.trim line)) = "perft"%string -> rest_tokens (Fen.trim line) = t :: r ->
+  t <> "simple"%string -> parse_uint 256 t = Some d -> (1 <= d)%N ->
+  exists lines total,
+    uci_step extra u line input = (u, [OPerft d lines total], None, input, Continue) /\
+    Z.of_N total = spec_perft d (u_game u) /\ ((2 <= d)%N -> sumN (map snd lines) = total).
+Proof.
+  intros extra u line input t r d LI NE CM RT NS PU D.
+  exists (perft_lines d (u_game u)), (perft_n d (u_game u)). split; [|split].
+  - exact (step_perft extra u line input t r d NE CM RT NS PU D).
+  - apply perft_n_exact; assumption.
+  - apply perft_lines_sum.
+Qed.
+
 Print Assumptions C14_any_schedule.
+Print Assumptions C14_perft_command_reports_the_rules_count.
 Print Assumptions C14_depth1_paths_agree.
 Print Assumptions C14_perft_is_exact.
 Print Assumptions C14_full.
